@@ -283,6 +283,15 @@ pub(crate) struct DirectoryInfo {
     pub(crate) cluster: ClusterId,
 }
 
+#[cfg(feature = "verif-hooks")]
+impl DirEntry {
+    /// Verification hook H1: public forwarder to the crate-private on-disk
+    /// serialiser, so an external monitor can check the entry codec.
+    pub fn verif_serialize(&self, fat_type: FatType) -> [u8; OnDiskDirEntry::LEN] {
+        self.serialize(fat_type)
+    }
+}
+
 impl DirEntry {
     pub(crate) fn serialize(&self, fat_type: FatType) -> [u8; OnDiskDirEntry::LEN] {
         let mut data = [0u8; OnDiskDirEntry::LEN];
